@@ -8,6 +8,17 @@ From F8 Require Import Sess.Bytes Sess.Msg Sess.Persist Sess.Session Sess.Simple
 Import ListNotations.
 Local Open Scope N_scope.
 
+(* ---- the linear tokenizer is the tokenizer -------------------------------------------------------------------------- *)
+Lemma fsplit_aux_eq : forall sep l cur, fsplit_aux sep l cur = split_aux sep l cur.
+Proof.
+  intros sep l. induction l as [|b l IH]; intro cur; cbn [fsplit_aux split_aux]; rewrite <- !rev_alt; [reflexivity|].
+  destruct (b =? sep); rewrite ?IH; reflexivity.
+Qed.
+Lemma ftokens_eq : forall raw, ftokens raw = tokens raw.
+Proof. intro raw. unfold ftokens, tokens, fsplit, split_on. rewrite fsplit_aux_eq. reflexivity. Qed.
+Lemma fnew_msg_of_eq : forall raw, fnew_msg_of raw = new_msg_of raw.
+Proof. intro raw. unfold fnew_msg_of, new_msg_of. rewrite ftokens_eq. reflexivity. Qed.
+
 (* ---- items ----------------------------------------------------------------------------------------------------- *)
 Definition body_item (m : msg) : item := (m_type m, map ftok (m_body m)).
 
@@ -51,7 +62,7 @@ Qed.
 
 Lemma wire_item_encode : forall sc M, wf_msg sc M = true -> sorted_out M -> wire_item (encode sc M) = body_item M.
 Proof.
-  intros sc M W [SH SB]. unfold wire_item, body_item.
+  intros sc M W [SH SB]. unfold wire_item, body_item. rewrite ftokens_eq.
   rewrite (tok_get_encode_type sc M W). rewrite (tokens_encode sc M W). unfold msg_toks.
   rewrite !filter_app. cbn [filter fst]. rewrite !is_hdr_tok_dec.
   change (std_tag 8) with true. change (std_tag 9) with true. change (std_tag T_MsgType) with true. change (std_tag 10) with true.
@@ -119,7 +130,7 @@ Lemma expect_numbered : forall ms n, Forall (fun m => plain_msg m = true) ms ->
   numbered_from n (expect sc now s0 n ms) = true.
 Proof.
   induction ms as [|m r IH]; intros n H; [reflexivity|]. inversion H; subst. cbn [expect numbered_from].
-  rewrite wire_at_new by assumption. rewrite N.eqb_refl. apply IH. assumption.
+  rewrite fnew_msg_of_eq, wire_at_new by assumption. rewrite N.eqb_refl. apply IH. assumption.
 Qed.
 
 Lemma expect_items : forall ms n, Forall (fun m => plain_msg m = true /\ sorted_out m) ms ->
@@ -136,7 +147,7 @@ Proof.
   pose proof (sentrel_ok _ _ _ SR) as OK. destruct (sentrel_facts _ _ _ SR) as (F & _).
   rewrite <- infos_of_snd. rewrite forallb_forall in OK. rewrite Forall_forall in F.
   apply forallb_forall. intros w I. apply in_map_iff in I. destruct I as (x & <- & IX).
-  destruct (F x IX) as [_ Q]. rewrite Q. apply OK. exact IX.
+  destruct (F x IX) as [_ Q]. rewrite fnew_msg_of_eq, Q. apply OK. exact IX.
 Qed.
 
 End Oracle.
@@ -331,7 +342,7 @@ Lemma numbered_nth : forall ws n i w, numbered_from n ws = true -> nth_error ws 
   exists adm, new_msg_of w = Some (adm, n + N.of_nat i, w).
 Proof.
   induction ws as [|w0 ws IH]; intros n i w H E; [destruct i; discriminate|].
-  cbn [numbered_from] in H. destruct (new_msg_of w0) as [[[adm k] raw]|] eqn:Q; [|discriminate].
+  cbn [numbered_from] in H. rewrite fnew_msg_of_eq in H. destruct (new_msg_of w0) as [[[adm k] raw]|] eqn:Q; [|discriminate].
   apply andb_true_iff in H. destruct H as [H1 H2]. apply N.eqb_eq in H1. subst k.
   destruct i as [|i'].
   - cbn in E. inversion E; subst w0. exists adm. rewrite N.add_0_r.
